@@ -133,7 +133,11 @@ func (x *E9) eval(e ast.Expr, env map[string]int64) (e9Val, error) {
 	// comparison uses AtomCmp.
 	switch e.(type) {
 	case *ast.BinaryExpr, *ast.UnaryExpr:
-		if x.AtomCmp != nil {
+		isConnective := false
+		if b, ok := e.(*ast.BinaryExpr); ok && (b.Op == token.LAND || b.Op == token.LOR) {
+			isConnective = true
+		}
+		if x.AtomCmp != nil && !isConnective {
 			if name := x.AtomCmp(e, strings.ReplaceAll(exprString(e), " ", "")); name != "" {
 				v, ok := env[name]
 				if !ok {
